@@ -148,7 +148,8 @@ class ValueWorld:
             else:
                 body += f"    return {m['id']!r}\n"
             if host:
-                deco = f"    @ovld(priority={m['prio']})\n" if m["prio"] else ""
+                # the first definition starts the overload explicitly, so that later ones may carry a priority
+                deco = f"    @ovld(priority={m['prio']})\n" if (m["prio"] or not src) else ""
                 body = "".join(ind + line + "\n" for line in body.splitlines())
                 src.append(f"{deco}    def f({', '.join(params)}):\n{body}")
             else:
